@@ -5,7 +5,7 @@ import ast
 from typing import Any, Iterable, Optional
 
 from .. import linear
-from ..model import AnalysisError, FuncInfo, Program, dotted, norm, self_attr, stmts_no_doc, walk_no_nested
+from ..model import AnalysisError, External, FuncInfo, Program, dotted, norm, self_attr, stmts_no_doc, walk_no_nested
 from ..report import RuleContext
 from ..walker import Walker
 from . import repwrap as R
@@ -434,6 +434,9 @@ def run(ctx: RuleContext, p: Program) -> None:
     ctx.try_rule(rule_handler_form, p, 'HANDLER-FORM')
     ctx.try_rule(rule_view_read, p, 'VIEW-READ')
     ctx.try_rule(rule_view_write, p, 'VIEW-WRITE')
+    ctx.try_rule(rule_view_snapshot, p, 'VIEW-SNAPSHOT')
+    from . import presence
+    ctx.try_rule(presence.rule_presence_truth, p, 'PRESENCE-TRUTH')
     ctx.not_decided += ['Python list semantics for every index / slice of each view', 'ordered-dict / first-match semantics of '
                         'the meta mapping view', 'MutableSequence mixin methods inherited from collections.abc']
     ctx.assumptions += ['bisect_left on a sorted list of distinct positions', 'range_from_index returns a range inside [0, n] '
@@ -512,3 +515,103 @@ def rule_view_write(ctx: RuleContext, p: Program, rid: str) -> None:
     order = [o for o in order if o]
     ctx.check(order == ['tokens', 'items', 'notify'], rid, 'models.internal.properties:RepeatedNodeWrapper.drop_many: order', f'{order}',
               f'drop_many does {order}; token ranges must be deleted while the item positions are still valid, then items, then notify', dm.where)
+
+
+# ====================================================================== VIEW-SNAPSHOT
+_MATERIALISE = {'list', 'tuple', 'sorted', 'set', 'frozenset', 'dict'}
+_LAZY_WRAP = {'zip', 'enumerate', 'map', 'filter', 'reversed', 'iter', 'itertools.chain', 'itertools.islice', 'itertools.zip_longest', 'cast', 'typing.cast'}
+_VIEW_MUTATORS = {'append', 'extend', 'insert', 'pop', 'remove', 'clear', 'drop_many', 'discard', '__setitem__', '__delitem__', 'sort', 'reverse',
+                  '_insert_tokens', '_del_tokens', 'splice', 'insert_after', 'insert_before', 'replace'}
+
+
+def rule_view_snapshot(ctx: RuleContext, p: Program, rid: str) -> None:
+    ctx.rule(rid, 'every public mutator of a list-like view that takes an Iterable argument consumes it completely (list / tuple / sorted / '
+                  'a comprehension, or hands it -- possibly through a generator -- to another checked mutator as its iterable argument) before it '
+                  'writes: the argument may be a live view of the same list (`v[::-1] = v`, `v.extend(v)`), and reads interleaved with the '
+                  'writes see half-updated contents')
+    views: list[Any] = []
+    for m in p.modules.values():
+        for c in m.classes:
+            if any(isinstance(b, External) and b.qualname.endswith(('MutableSequence', 'MutableMapping', 'MutableSet')) for k in c.mro for b in k.bases):
+                views.append(c)
+    n = 0
+    for c in views:
+        for fn in c.methods():
+            if fn.kind == 'overload' or (fn.name.startswith('_') and not fn.name.startswith('__')):
+                continue
+            a = fn.node.args
+            lazy0 = {x.arg for x in [*a.posonlyargs, *a.args, *a.kwonlyargs] if x.annotation is not None and 'Iterable' in norm(x.annotation)}
+            if not lazy0:
+                continue
+            n += 1
+            site = f'{c.module.name.split(".", 1)[1]}:{fn.qualname}'
+            lazy = set(lazy0)
+
+            def is_lazy(e: ast.AST) -> bool:
+                """does evaluating e yield something that still reads a lazy name when iterated later?"""
+                if isinstance(e, ast.Name):
+                    return e.id in lazy
+                if isinstance(e, ast.IfExp):
+                    return is_lazy(e.body) or is_lazy(e.orelse)
+                if isinstance(e, ast.BoolOp):
+                    return any(is_lazy(v) for v in e.values)
+                if isinstance(e, ast.NamedExpr):
+                    return is_lazy(e.value)
+                if isinstance(e, ast.GeneratorExp):
+                    return any(is_lazy(g.iter) for g in e.generators)
+                if isinstance(e, ast.Call):
+                    nm = dotted(e.func) or ''
+                    if nm in _MATERIALISE:
+                        return False
+                    if nm in _LAZY_WRAP:
+                        return any(is_lazy(x) for x in e.args)
+                    return False
+                if isinstance(e, ast.Starred):
+                    return False
+                return False
+
+            changed = True
+            while changed:
+                changed = False
+                for st in walk_no_nested(fn.node):
+                    if isinstance(st, ast.Assign) and len(st.targets) == 1 and isinstance(st.targets[0], ast.Name) and is_lazy(st.value) \
+                            and st.targets[0].id not in lazy:
+                        lazy.add(st.targets[0].id)
+                        changed = True
+            # a name re-bound to a materialised value stops being lazy from there on; judged per use below with a simple order check
+            rebinds = {}
+            for st in walk_no_nested(fn.node):
+                if isinstance(st, ast.Assign) and len(st.targets) == 1 and isinstance(st.targets[0], ast.Name) and st.targets[0].id in lazy0 \
+                        and not is_lazy(st.value):
+                    rebinds.setdefault(st.targets[0].id, st.lineno)
+
+            def mutates(body: list[ast.stmt]) -> Optional[str]:
+                for s in body:
+                    for x in ast.walk(s):
+                        if isinstance(x, ast.Call) and isinstance(x.func, ast.Attribute) and x.func.attr in _VIEW_MUTATORS \
+                                and (norm(x.func.value).startswith(('self', 'super()'))):
+                            return norm(x)[:70]
+                        if isinstance(x, (ast.Assign, ast.AugAssign, ast.Delete)):
+                            tg = x.targets if isinstance(x, (ast.Assign, ast.Delete)) else [x.target]
+                            for t in tg:
+                                if isinstance(t, ast.Subscript) and norm(t.value).startswith('self'):
+                                    return norm(x)[:70]
+                return None
+
+            problems: list[tuple[str, int]] = []
+            for st in walk_no_nested(fn.node):
+                if isinstance(st, ast.For):
+                    names = {x.id for x in ast.walk(st.iter) if isinstance(x, ast.Name)}
+                    live = {nm for nm in names & lazy if not (nm in rebinds and rebinds[nm] < st.lineno)}
+                    if live and is_lazy(st.iter):
+                        w = mutates(st.body)
+                        if w:
+                            problems.append((f'`for {norm(st.target)} in {norm(st.iter)[:60]}` reads the caller\'s iterable ({", ".join(sorted(live))}) '
+                                             f'while its body writes (`{w}`)', st.lineno))
+            ok = not problems
+            ctx.check(ok, rid, site, problems[0][0][:80] if problems else f'iterable argument(s) {sorted(lazy0)}',
+                      (problems[0][0] if problems else '') + ': when the argument is a live view of the same list the values read are the '
+                      'half-written ones, so the view no longer behaves like a Python list', f'{c.module.relpath}:{problems[0][1] if problems else fn.node.lineno}',
+                      note=f'{sorted(lazy0)} consumed before any write')
+    if n < 6:
+        raise AnalysisError(f'VIEW-SNAPSHOT: only {n} mutators with an Iterable parameter found (>= 6 confirmed by hand)')
